@@ -820,7 +820,10 @@ class NetConnections:
         inodes = {}
         for pid in pids():
             try:
-                inodes.update(self.get_proc_inodes(pid))
+                # The same socket can be held by many processes (e.g.
+                # after fork()): keep the holders of all of them.
+                for inode, pairs in self.get_proc_inodes(pid).items():
+                    inodes.setdefault(inode, []).extend(pairs)
             except (FileNotFoundError, ProcessLookupError, PermissionError):
                 # os.listdir() is gonna raise a lot of access denied
                 # exceptions in case of unprivileged user; that's fine
